@@ -3635,45 +3635,72 @@ def _fix_duplicate_regular_imports(source: str) -> str:
     """Remove duplicate plain imports from the same module."""
     root = core.parse(source)
 
-    import_aliases = collections.defaultdict(set)
-    import_nodes = collections.defaultdict(list)
+    def _key(alias: ast.alias) -> Tuple[str, str | None]:
+        return (alias.name, alias.asname if alias.asname != alias.name else None)
 
-    for node in core.walk(root, ast.Import):
+    def _bound_name(alias: ast.alias) -> str:
+        return alias.asname or alias.name.split(".")[0]
+
+    # An import is a duplicate only if the name it binds is, at that point, already bound by an
+    # identical import: earlier in the same sequence of statements, or at module level.
+    toplevel = {}
+    for node in core.filter_nodes(root.body, (ast.Import, ast.ImportFrom)):
         for alias in node.names:
-            asname = (
-                alias.asname
-                if alias.asname != alias.name and alias.asname is not None
-                else alias.name
+            toplevel[_bound_name(alias)] = (
+                (_key(alias), node.lineno) if isinstance(node, ast.Import) else None
             )
-            name = alias.name
-
-            import_nodes[asname].append(node)
-            import_aliases[name].add(asname)
 
     replacements = {}
     removals = set()
 
-    for asname, nodes in import_nodes.items():
-        if len(nodes) > 1:
-            for node in nodes[1:]:
-                new_aliases = {
-                    (alias.name, alias.asname if alias.asname != alias.name else None)
-                    for alias in node.names
-                    if (alias.asname or alias.name) != asname
-                }
-                new_names = [
-                    ast.alias(name=name, asname=asname)
-                    for name, asname in sorted(
-                        new_aliases, key=lambda t: (t[0], t[1] is not None, t[1])
-                )]
-                if new_names:
-                    replacements[node] = ast.Import(names=new_names)
+    for parent in ast.walk(root):
+        for field in ("body", "orelse", "finalbody"):
+            statements = getattr(parent, field, None)
+            if not isinstance(statements, list):
+                continue
+
+            current = {}
+            for node in statements:
+                if isinstance(node, ast.ImportFrom):
+                    for alias in node.names:
+                        current[_bound_name(alias)] = None
+
+                if not isinstance(node, ast.Import):
+                    continue
+
+                new_aliases = []
+                for alias in node.names:
+                    key = _key(alias)
+                    name = _bound_name(alias)
+                    if current.get(name) == key:
+                        continue
+                    if (
+                        parent is not root
+                        and name not in current
+                        and toplevel.get(name) is not None
+                        and toplevel[name][0] == key
+                        and toplevel[name][1] < node.lineno
+                    ):
+                        continue
+
+                    current[name] = key
+                    new_aliases.append(key)
+
+                if len(new_aliases) == len(node.names):
+                    continue
+
+                if new_aliases:
+                    replacements[node] = ast.Import(
+                        names=[
+                            ast.alias(name=name, asname=asname)
+                            for name, asname in sorted(
+                                new_aliases, key=lambda t: (t[0], t[1] is not None, t[1])
+                    )])
                 else:
                     removals.add(node)
 
     if replacements or removals:
         source = processing.alter_code(source, root, replacements=replacements, removals=removals)
-        return _fix_duplicate_regular_imports(source)
 
     return source
 
